@@ -28,9 +28,11 @@ MNext ==
   \/ UseSubs /\ \E id \in {1, 2}, fam \in {"states", "logs"}, once \in BOOLEAN :
         ~(\E u \in s.subs : u.id = id) /\ (once => fam = "logs") /\ Act(UserSub(s, id, fam, once), <<"sub", id>>)
   \/ UseSubs /\ \E u \in s.subs : u.fam = "logs" /\ Act(UserUnsub(s, u.id, u.fam), <<"unsub", u.id>>)
-  \/ UseSubs /\ ~s.va.on /\ Len(s.va.q) = 0 /\ \E md \in {"port", "noport", "block"}, au \in BOOLEAN : Act(VaSubscribe(s, md, au), <<"vasub">>)
+  \/ UseSubs /\ ~s.va.on /\ Len(s.va.q) = 0 /\ \E md \in {"port", "noport", "block", "gated"}, au \in BOOLEAN : Act(VaSubscribe(s, md, au), <<"vasub">>)
   \/ UseSubs /\ s.va.on /\ Act(VaUnsub(s), <<"vaunsub">>)
-  \/ VaStartedEnabled(s) /\ Act(VaStarted(s), <<"vastarted">>)
+  \/ s.up /\ \E j \in VaDone(s) : Act(VaStarted(s, j), <<"vastarted">>)
+  \/ \E j \in VaWoken(s) : Act(VaHandlerStep(s, j), <<"vahandler">>)
+  \/ \E j \in 1..Len(s.va.q), res \in {"port", "noport"} : s.va.q[j].st = "pending" /\ Act(VaRelease(s, s.va.q[j].n, res), <<"varelease">>)
 MSpec == MInit /\ [][MNext]_mvars
 
 \* C16 ------------------------------------------------------------------
